@@ -255,6 +255,38 @@ Section V.
       destruct Hr2 as [|e' e r3' r3 He Hr3]; [eq_pure|]. destruct Hr3; [exact He|eq_pure].
     Qed.
 
+    (** ** loops and printing *)
+    Lemma cong_while_loop c' c body' body : rel c' c -> Forall2 rel body' body ->
+      forall n last, eqI sc (while_loop ev n c' body' last) (while_loop ev n c body last).
+    Proof.
+      intros Hc Hb. induction n as [|n IH]; intros last; cbn [while_loop].
+      - intros st _. split; [reflexivity|intros; discriminate].
+      - apply eqI_bind; [exact Hc|intros v]. apply eqI_get. intros st. destruct (truthy st v); [|eq_pure].
+        apply eqI_bind; [apply eq_eval_args, Hb|intros vs]. apply eqI_bind; [eq_pure|intros r]. apply IH.
+    Qed.
+    Lemma cong_while n args' args : Forall2 rel args' args -> eqI sc (op_while n ev args') (op_while n ev args).
+    Proof.
+      intros H. unfold op_while. rewrite (zlen_eq _ _ H). apply eqI_bind; [eq_pure|intros _].
+      destruct H as [|c' c r' r Hc Hr]; [eq_pure|]. apply cong_while_loop; assumption.
+    Qed.
+
+    Lemma pure_printable v : pure (printable v).
+    Proof. intros st a st' _ H. unfold printable in H. match type of H with match ?x with _ => _ end = _ => destruct x end; [|discriminate]. injection H as _ <-. reflexivity. Qed.
+    Lemma pure_to_text v : pure (to_text v).
+    Proof. unfold to_text. destruct v; try apply pure_ret; apply pure_printable. Qed.
+    Lemma eq_emit s : eqI sc (emit s) (emit s).
+    Proof.
+      intros st Hi. split; [reflexivity|]. intros a st' H. unfold emit, modify in H. injection H as _ <-. split.
+      - apply (inv_transfer sc st _ Hi); try reflexivity. intros id f Hf. exists f. repeat split. exact Hf.
+      - apply R_upd_out.
+    Qed.
+    Lemma cong_print args' args : Forall2 rel args' args -> eqI sc (op_print ev args') (op_print ev args).
+    Proof.
+      intros H. unfold op_print. apply eqI_bind; [apply eq_eval_args, H|intros vs].
+      apply eqI_bind; [apply eqI_pure, pure_mapM_all; intros; apply pure_to_text|intros ss].
+      apply eqI_bind; [apply eq_emit|intros _; eq_pure].
+    Qed.
+
     (** ** assignment *)
     Definition set_go : list val -> val -> M val :=
       fix go (l : list val) (last : val) : M val :=
@@ -494,6 +526,8 @@ Section V.
   End Cong.
 
   (** * the resolved program and the program *)
+  (** the operators that use their operands only through the evaluator: the read-only ones, while, print *)
+  Definition frag_op (o : op) : bool := ro_op o || match o with OWhile | OPrint => true | _ => false end.
   Definition lit (e : val) : bool := match e with VInt _ | VBool _ | VStr _ | VFloat _ => true | _ => false end.
   Definition let_binding (b : val) : bool := match b with VList true [VSym _ _; init] => is_ro init | _ => false end.
 
@@ -502,7 +536,7 @@ Section V.
   | an_lit sc e : lit e = true -> ann sc e e
   | an_sym sc n : smem n V = true -> ann sc (VSym n None) (VSym n None)
   | an_res sc n k : smem n V = true -> scope_steps sc n O = Some k -> ann sc (VSym n (Some k)) (VSym n None)
-  | an_op sc o args' args : ro_op o = true -> Forall2 (ann sc) args' args ->
+  | an_op sc o args' args : frag_op o = true -> Forall2 (ann sc) args' args ->
       ann sc (VList true (VOp o :: args')) (VList true (VOp o :: args))
   | an_set sc bs' bs :
       Forall2 (fun b' b => exists kn s e' e, b' = VList true [VSym kn s; e'] /\ b = VList true [VSym kn None; e] /\ smem kn V = true /\
@@ -530,7 +564,7 @@ Section V.
       cbn [eval_body]. destruct o; try discriminate Ho; unfold dispatch;
         first [ apply cong_not | apply cong_eq | apply cong_cmp | apply cong_and | apply cong_or | apply cong_if | apply cong_do
               | apply cong_add | apply cong_sub | apply cong_mul | apply cong_div | apply cong_exp | apply cong_mod
-              | apply cong_bitwise | apply cong_slice ]; exact HR.
+              | apply cong_bitwise | apply cong_slice | apply cong_while | apply cong_print ]; exact HR.
     - cbn [eval_body]. unfold dispatch. apply cong_set.
       clear -Hbs IH.
       induction Hbs as [|b' b r' r (kn & s & e' & e & E1 & E2 & Hkn & Hs & He) Hr IHr]; constructor; [|exact IHr].
@@ -554,7 +588,7 @@ Section V.
     | VList true (VOp OLet :: VList true bs :: body) => forallb let_binding bs && forallb fragE body
     | VList true (VOp OSet :: bs) =>
         forallb (fun b => match b with VList true [VSym kn None; e] => smem kn V && fragE e | _ => false end) bs
-    | VList true (VOp o :: args) => ro_op o && forallb fragE args
+    | VList true (VOp o :: args) => frag_op o && forallb fragE args
     | _ => false
     end.
 
@@ -589,7 +623,7 @@ Section V.
   Definition is_set_binding (b : val) : bool :=
     match b with VList true [VSym kn None; e] => smem kn V && fragE e | _ => false end.
 
-  Lemma default_ro f sc o rest e' sc' : ro_op o = true ->
+  Lemma default_ro f sc o rest e' sc' : frag_op o = true ->
     (forall sc e e' sc', fragE e = true -> resolve_vars f sc e = RsOk (e', sc') -> ann sc e' e /\ sc' = sc) ->
     forallb fragE rest = true ->
     resolve_vars (S f) sc (VList true (VOp o :: rest)) = RsOk (e', sc') -> ann sc e' (VList true (VOp o :: rest)) /\ sc' = sc.
@@ -621,9 +655,9 @@ Section V.
         * apply an_sym; assumption.
       + destruct w; [|discriminate Hf]. destruct l as [|h rest]; [discriminate Hf|].
         destruct h as [| | | | | |o| | | | | |]; try discriminate Hf.
-        destruct (ro_op o) eqn:Hro.
+        destruct (frag_op o) eqn:Hro.
         { apply (default_ro f sc o rest e' sc' Hro IH1); [|exact H].
-          destruct o; try discriminate Hro; cbn [fragE ro_op andb] in Hf; exact Hf. }
+          destruct o; try discriminate Hro; cbn [fragE frag_op ro_op andb orb] in Hf; exact Hf. }
         destruct o; try discriminate Hro; try discriminate Hf.
         * (* set *)
           cbn [fragE] in Hf. cbn [resolve_list] in H. destruct f as [|f']; [discriminate H|].
@@ -703,3 +737,15 @@ Example demo_agrees : forall e' lf f, resolve ["g"] demo_prog = RsOk e' ->
 Proof. intros e' lf f H. apply (resolution_preserves demo_V ["g"] demo_prog e' lf f demo_state demo_in_fragment H demo_inv). Qed.
 Example demo_value : exists st', eval 20 20 demo_prog demo_state = Ok (VInt 20) st'.
 Proof. eexists. vm_compute. reflexivity. Qed.
+
+(** (let ([i 0]) (while (< i 3) (set (i (+ i 1))) (set (g (+ g i)))) (print g) g) *)
+Definition loop_prog : val :=
+  WL [VOp OLet; WL [WL [sy "x"; VInt 0]];
+      WL [VOp OWhile; WL [VOp OLt; sy "x"; VInt 3];
+          WL [VOp OSet; WL [sy "x"; WL [VOp OAdd; sy "x"; VInt 1]]];
+          WL [VOp OSet; WL [sy "g"; WL [VOp OAdd; sy "g"; sy "x"]]]];
+      WL [VOp OPrint; sy "g"];
+      sy "g"].
+Example loop_agrees : forall e' lf f, resolve ["g"] loop_prog = RsOk e' ->
+  eval lf f e' demo_state = eval lf f loop_prog demo_state.
+Proof. intros e' lf f H. apply (resolution_preserves demo_V ["g"] loop_prog e' lf f demo_state eq_refl H demo_inv). Qed.
